@@ -404,15 +404,19 @@ def table():
                         alts=dict(left_vertices=[lambda: np.array([[0.0, 1.0 + EPS], [5.0, 1.0], [10.0, 1.5]]), lambda: np.array([[0.0, 1.0], [5.0, 1.2], [10.0, 1.5]])],
                                   center_vertices=[lambda: np.array([[0.0, 0.0], [5.0, 0.0], [10.0, 0.5 + EPS]]), lambda: np.array([[0.0, 0.1], [5.0, 0.0], [10.0, 0.5]])],
                                   right_vertices=[lambda: np.array([[0.0, -1.0], [5.0 + EPS, -1.0], [10.0, -0.5]]), lambda: np.array([[0.0, -1.0], [5.0, -1.3], [10.0, -0.5]])],
-                                  lanelet_id=[lambda: 6], predecessor=[lambda: [2], lambda: [2, 10, 18]], successor=[lambda: [3], lambda: [11, 4]],
+                                  lanelet_id=[lambda: 6], predecessor=[lambda: [2], lambda: [2, 10, 18], lambda: [2, 10, 3]], successor=[lambda: [3], lambda: [11, 4], lambda: [3, 11, 10]],
                                   adjacent_left=[lambda: 7], adjacent_left_same_direction=[lambda: False], adjacent_right=[lambda: 7],
                                   adjacent_right_same_direction=[lambda: True], line_marking_left_vertices=[lambda: LineMarking.BROAD_SOLID],
                                   line_marking_right_vertices=[lambda: LineMarking.DASHED],
                                   stop_line=[lambda: stopline(end=A(0.0, 3.0 + EPS)), lambda: stopline(traffic_sign_ref={18})],
                                   lanelet_type=[lambda: {LaneletType.URBAN}, lambda: {LaneletType.HIGHWAY, LaneletType.MAIN_CARRIAGE_WAY}],
-                                  user_one_way=[lambda: {RoadUser.CAR}, lambda: {RoadUser.CAR, RoadUser.TRUCK}],
-                                  user_bidirectional=[lambda: {RoadUser.BICYCLE}, lambda: {RoadUser.BICYCLE, RoadUser.CAR}],
-                                  traffic_signs=[lambda: {10}, lambda: {10, 18, 26}], traffic_lights=[lambda: {11}, lambda: {19, 12}],
+                                  # (the third alternatives take a member of the *sibling* attribute of 'full': an equality that
+                                  #  compares the union / concatenation of two siblings cannot see them - seed C12_r10_1)
+                                  user_one_way=[lambda: {RoadUser.CAR}, lambda: {RoadUser.CAR, RoadUser.TRUCK}, lambda: {RoadUser.CAR, RoadUser.BUS, RoadUser.BICYCLE}],
+                                  user_bidirectional=[lambda: {RoadUser.BICYCLE}, lambda: {RoadUser.BICYCLE, RoadUser.CAR},
+                                                      lambda: {RoadUser.BICYCLE, RoadUser.PEDESTRIAN, RoadUser.BUS}],
+                                  traffic_signs=[lambda: {10}, lambda: {10, 18, 26}, lambda: {10, 18, 11}],
+                                  traffic_lights=[lambda: {11}, lambda: {19, 12}, lambda: {11, 19, 18}],
                                   adjacent_areas=[lambda: {30}, lambda: {30, 39}]),
                         perms=dict(predecessor=[lambda: [10, 2]], successor=[lambda: [11, 3]], traffic_signs=[lambda: {18, 10}],
                                    traffic_lights=[lambda: {19, 11}], adjacent_areas=[lambda: {38, 30}],
